@@ -11,13 +11,13 @@ from fractions import Fraction as Fr
 ID = "C11"
 LEVEL = "exploration"
 TECHNIQUE = "offline exactly-once / routing / ordering checker over a unique-id event trace; receive_event contract"
-RULE = ("send scripts (sender, receiver incl. deleted and never-issued ids, step, delay in {none,0,dt,2dt,0.3,0.7,1.5,...}) over "
+RULE = ("send scripts (sent from act(), from the model's begin_round and end_round callbacks; sender, receiver incl. deleted and never-issued ids, agents that go into a state without handlers for a while, step, delay in {none,0,dt,2dt,0.3,0.7,1.5,...}) over "
         "populations of 2-8 agents of 2 types with create/delete/configure/reset histories at end_round and deletions from inside act() (the deleted agent itself is not judged in that step), dt in {1,.5,.25,.2,.1}; "
         "exhaustive: all pairs (quick) / triples (thorough) of events over <=3 agents x {no deletion, delete receiver, delete other}. "
         "distinct_nontrivial = distinct scripts in which at least one event is delayed or addressed to a changed population.")
 ASSUMPTIONS = ["population changes are scripted in end_round, plus deletions from inside act(): every agent that is alive throughout its delivery step is judged",
                "an event is addressed to the agent object that carried the id when the event was sent (identity tokens of the harness agents): an id handed to another object later is not the addressee",
-               "handlers are registered for every state (an agent without handlers for its state keeps its events queued: not judged)",
+               "handlers are registered for the states active / idle / busy; an event that falls due while its receiver is in the handler-less state offline must be handled exactly once as soon as... at some later turn of that agent in a state with handlers (which turn is not judged), never twice, never by another agent",
                "an event whose delivery step lies after the end of the run is 'open', not lost"]
 REQUIRED = {"events_sent": 2000, "events_handled": 1500, "contract_evaluations": 1500, "delayed_events": 500}
 BUDGET_S = {"quick": 100, "thorough": 1200}
@@ -121,7 +121,14 @@ def make_random(seed):
             actor = rng.choice(live_guess)
             script.setdefault("act", {}).setdefault(str(k), {}).setdefault(str(actor), []).append(["delete", rng.choice([actor, actor, max(0, actor - 1), actor + 1])])
         if rng.random() < 0.3:
-            script["state"].setdefault(str(k), {})[str(rng.randrange(0, next_id + 3))] = rng.choice(["active", "idle", "busy"])
+            script["state"].setdefault(str(k), {})[str(rng.randrange(0, next_id + 3))] = rng.choice(["active", "idle", "busy", "offline", "offline"])
+        for phase in ("send_begin", "send_end"):
+            # events sent by the model's begin_round / end_round callbacks
+            if rng.random() < 0.25:
+                for _ in range(rng.randint(1, 2)):
+                    d = rng.choice([None, None, "dt", "2dt", 0.3, 0.7, 1.0])
+                    script.setdefault(phase, {}).setdefault(str(k), []).append([rng.randrange(0, next_id + 2), rng.randrange(0, next_id + 3), delay_value(d, dt), uid])
+                    uid += 1
         for _ in range(rng.randint(0, 4)):
             snd = rng.randrange(0, next_id + 4)
             rcv = rng.choice([rng.randrange(0, next_id + 6), rng.randrange(0, 4)])
@@ -153,7 +160,7 @@ def check_trace(sc, log, event_stats):
     stats = dict(sent=0, handled=0, delayed=0)
     # reconstruct per-step populations, handled events and times
     pop, handled, times = {}, [], {}
-    token_of, handled_token, deleted_in_act = {}, {}, {}
+    token_of, handled_token, deleted_in_act, handle_state = {}, {}, {}, {}
     k = -1
     for e in log:
         if e[0] == "begin":
@@ -162,6 +169,8 @@ def check_trace(sc, log, event_stats):
         elif e[0] == "agents":
             pop[k] = list(e[1])
             token_of[k] = dict(zip(e[1], e[2])) if len(e) > 2 else {}
+        elif e[0] == "handle" and len(e) > 3:
+            handle_state[(k, e[1])] = e[3]
         elif e[0] == "handled":
             handled.append((k, e[1], e[2], e[4]))   # step, agent, uid, receiver_id
             if len(e) > 5:
@@ -174,6 +183,7 @@ def check_trace(sc, log, event_stats):
     for (k2, agent, uid, rcv) in handled:
         by_uid.setdefault(uid, []).append((k2, agent))
     exp_stats = {}
+    late = set()
     for (_, snd, rcv, uid, ks, delay) in sent:
         stats["sent"] += 1
         h = hops(delay, dt)
@@ -198,13 +208,26 @@ def check_trace(sc, log, event_stats):
                 return dict(kind="delivered-to-recycled-id", uid=uid, receiver=rcv, sent_step=ks, expected_step=D, handled=got,
                             addressee_token=sent_tok, handler_token=now_tok), stats
             continue
+        # the collector counts an event when it is received, i.e. in the step it falls due, by the agent that carries the id then
+        name = "ping" if delay is None else "pong"
+        exp_stats.setdefault(D, {}).setdefault(name, 0)
+        exp_stats[D][name] += 1
         if rcv in deleted_in_act.get(D, set()):
             # deleted from inside act() during its delivery step: whether it still had its turn is not specified
             if len(got) > 1 or any(a != rcv or _k != D for (_k, a) in got):
                 return dict(kind="not-exactly-once", uid=uid, receiver=rcv, sent_step=ks, delay=delay, expected_step=D, handled=got), stats
+            continue
+        if handle_state.get((D, rcv)) == "offline":
+            # the receiver sits in a state without handlers when the event is due: when it is handled is not specified, but it is
+            # neither lost nor duplicated - once the agent gets a turn in a state with handlers (same incarnation, alive) it is handled, once
+            chances = [j for j in range(D, last + 1) if handle_state.get((j, rcv)) not in (None, "offline") and token_of.get(j, {}).get(rcv) == token_of.get(D, {}).get(rcv)
+                       and rcv not in deleted_in_act.get(j, set())]
+            if len(got) > 1 or any(a != rcv for (_k, a) in got) or (chances and (len(got) != 1 or got[0][0] < D)):
+                return dict(kind="not-exactly-once", uid=uid, receiver=rcv, sent_step=ks, delay=delay, expected_step=D, handled=got, receiver_offline_when_due=True, later_turns=chances[:3]), stats
             if got:
-                exp_stats.setdefault(D, {}).setdefault("ping" if delay is None else "pong", 0)
-                exp_stats[D]["ping" if delay is None else "pong"] += 1
+                stats["handled"] += 1
+                stats["handled_after_offline"] = stats.get("handled_after_offline", 0) + 1
+                late.add(uid)
             continue
         if len(got) != 1:
             return dict(kind="not-exactly-once", uid=uid, receiver=rcv, sent_step=ks, delay=delay, expected_step=D, handled=got), stats
@@ -214,14 +237,11 @@ def check_trace(sc, log, event_stats):
         if kh != D:
             return dict(kind="wrong-step", uid=uid, sent_step=ks, delay=delay, dt=dt, expected_step=D, handled_step=kh), stats
         stats["handled"] += 1
-        name = "ping" if delay is None else "pong"
-        exp_stats.setdefault(D, {}).setdefault(name, 0)
-        exp_stats[D][name] += 1
     # order: same receiver, same send step, same delivery step -> order sent
     pos = {uid: i for i, (_, _, uid, _) in enumerate(handled)}
     groups = {}
     for i, (_, snd, rcv, uid, ks, delay) in enumerate(sent):
-        if uid in pos:
+        if uid in pos and uid not in late:
             groups.setdefault((rcv, ks, ks + 1 + hops(delay, dt)), []).append(uid)
     for key, uids in groups.items():
         got = sorted(uids, key=lambda u: pos[u])
